@@ -21,7 +21,10 @@ Sig == [ compose |-> <<(<<"C", "C">>), "C">>, quotient |-> <<(<<"C", "C">>), "C"
          simplify |-> <<(<<"L", "L">>), "L">>, elim_refine |-> <<(<<"L", "L">>), "L">>, elim_relax |-> <<(<<"L", "L">>), "L">>,
          optimize |-> <<(<<"C">>), "S">>, dict_roundtrip |-> <<(<<"C">>), "C">>, string_roundtrip |-> <<(<<"C">>), "C">>,
          parse |-> <<(<<>>), "L">>, assumptions |-> <<(<<"C">>), "L">>, guarantees |-> <<(<<"C">>), "L">>,
-         list_refines |-> <<(<<"L", "L">>), "S">>, contains |-> <<(<<"L">>), "S">>, union |-> <<(<<"L", "L">>), "L">> ]
+         list_refines |-> <<(<<"L", "L">>), "S">>, contains |-> <<(<<"L">>), "S">>, union |-> <<(<<"L", "L">>), "L">>,
+         terms_with_vars |-> <<(<<"L">>), "L">>, is_empty |-> <<(<<"L">>), "S">>, list_copy |-> <<(<<"L">>), "L">>,
+         difference |-> <<(<<"L", "L">>), "L">>, contains_env |-> <<(<<"C", "L">>), "S">>, contains_impl |-> <<(<<"C", "L">>), "S">>,
+         printed |-> <<(<<"C">>), "S">>, evaluate |-> <<(<<"L">>), "L">> ]
 Ops == DOMAIN Sig
 
 VARIABLES kinds,   \* kinds[i] : kind of pool member i ("C" / "L" / "S")
